@@ -87,6 +87,7 @@ class _Gen:
     self.n = 0
     self.bias = bias or {}
     self.consumed = set()
+    self.last_const = None
 
   # ---- tensors
   def act(self, name, shape, dtype='f', idrange=None):
@@ -245,12 +246,14 @@ class _Gen:
     self.op(typ, [x], [y])
     return [y]
 
-  def mk_binary(self, typ, x, other=None):
+  def mk_binary(self, typ, x, other=None, tied=False):
     sh = self.shape(x)
     nm = self.oname(typ)
     if other is None:
       csh = sh if self.r.random() < 0.6 else [sh[-1]]
       other = self.fconst(nm + '/c', tuple(csh))
+      if list(csh) == list(sh):
+        self.last_const = (typ, other)   # may be consumed again by a later op (tied constant)
     ins = [x, other] if self.r.random() < 0.8 else [other, x]
     if self.s.tensors[other]['data'] is not None:
       ins = [x, other]
@@ -350,6 +353,10 @@ class _Gen:
                and self.s.tensors[t]['dtype'] == 'f']
       if mates:
         cands += [('concat', 2.0), ('add2', 1.2), ('mul2', 0.6), ('sub2', 0.5)]
+      if self.s.tensors[x]['dtype'] == 'f':
+        cands += [('square', 0.35), ('selfconcat', 0.2)]
+      if self.last_const is not None and self.shape(self.last_const[1]) == sh:
+        cands += [('tiedconst', 1.2)]
       if rank == 3:
         m3 = [t for t in avail if t != x and len(self.shape(t)) == 3
               and self.shape(t)[0] == sh[0] and self.shape(t)[1] == sh[2]]
@@ -378,6 +385,9 @@ class _Gen:
       elif k == 'add2': new = self.mk_binary('ADD', x, r.choice(mates))
       elif k == 'sub2': new = self.mk_binary('SUB', x, r.choice(mates))
       elif k == 'mul2': new = self.mk_binary('MUL', x, r.choice(mates))
+      elif k == 'square': new = self.mk_binary(r.choice(['MUL', 'ADD']), x, x)
+      elif k == 'selfconcat': new = self.mk_concat(x, x)
+      elif k == 'tiedconst': new = self.mk_binary(self.last_const[0], x, self.last_const[1], tied=True)
       elif k == 'mean': new = self.mk_mean(x)
       elif k == 'bmm': new = self.mk_bmm(x)
       elif k == 'bmm2': new = self.mk_bmm(x, r.choice(m3))
